@@ -1475,11 +1475,59 @@ impl<T: PPGEvaluatorStrategy> PPGEvaluator<T> {
                                 self.gen
                             );
                         }
-                        _ => {
-                            return Err(PPGEvaluatorError::InternalError(format!(
-                                "unexpected was 7 {:?}",
-                                j
-                            )))
+                        // The signal also travels through already skipped output jobs (see
+                        // above), so it can reach jobs whose upstreams were all done.
+                        // Those that have not been started yet are withdrawn...
+                        JobState::Always(JobStateAlways::ReadyToRun) => {
+                            self.jobs_ready_to_run.remove(&j.job_id);
+                            set_node_state!(
+                                j,
+                                JobState::Always(JobStateAlways::FinishedUpstreamFailure),
+                                self.gen
+                            );
+                        }
+                        JobState::Output(JobStateOutput::ReadyToRun) => {
+                            self.jobs_ready_to_run.remove(&j.job_id);
+                            set_node_state!(
+                                j,
+                                JobState::Output(JobStateOutput::FinishedUpstreamFailure),
+                                self.gen
+                            );
+                        }
+                        JobState::Ephemeral(JobStateEphemeral::ReadyToRun(_))
+                        | JobState::Ephemeral(JobStateEphemeral::ReadyButDelayed)
+                        | JobState::Ephemeral(JobStateEphemeral::FinishedSkipped) => {
+                            self.jobs_ready_to_run.remove(&j.job_id);
+                            set_node_state!(
+                                j,
+                                JobState::Ephemeral(JobStateEphemeral::FinishedUpstreamFailure),
+                                self.gen
+                            );
+                        }
+                        // ...those that are running or were run had all their inputs, they
+                        // (and what depends on them alone) are not affected.
+                        JobState::Always(
+                            JobStateAlways::Running
+                            | JobStateAlways::FinishedSuccess
+                            | JobStateAlways::FinishedFailure
+                            | JobStateAlways::FinishedAborted,
+                        )
+                        | JobState::Output(
+                            JobStateOutput::Running
+                            | JobStateOutput::FinishedSuccess
+                            | JobStateOutput::FinishedFailure
+                            | JobStateOutput::FinishedAborted,
+                        )
+                        | JobState::Ephemeral(
+                            JobStateEphemeral::Running(_)
+                            | JobStateEphemeral::FinishedSuccessNotReadyForCleanup
+                            | JobStateEphemeral::FinishedSuccessReadyForCleanup
+                            | JobStateEphemeral::FinishedSuccessCleanedUp
+                            | JobStateEphemeral::FinishedSuccessSkipCleanup
+                            | JobStateEphemeral::FinishedFailure
+                            | JobStateEphemeral::FinishedAborted,
+                        ) => {
+                            propagate = false;
                         }
                     }
                     if propagate {
